@@ -11,6 +11,7 @@ package main
 import (
 	"fmt"
 	"math/big"
+	"runtime"
 	"strings"
 	"sync"
 	"time"
@@ -204,6 +205,8 @@ func (s *c20Step) coq() string {
 		return fmt.Sprintf("RAsync %d %d %d", s.A, s.B, s.Extra)
 	case "run":
 		return fmt.Sprintf("RRun %d", s.A)
+	case "return":
+		return fmt.Sprintf("RReturn %d", s.A)
 	}
 	return "RRun 99999"
 }
@@ -222,6 +225,8 @@ func (s *c20Step) String() string {
 		return fmt.Sprintf("agent%d:ServeAsync{h%d}.Serve", s.A, s.B)
 	case "run":
 		return fmt.Sprintf("goroutine-of-agent%d:runs", s.A)
+	case "return":
+		return fmt.Sprintf("agent%d:handler returns, keeps the pointer", s.A)
 	}
 	return "?"
 }
@@ -260,11 +265,59 @@ type c20Reg struct {
 	Hid    int
 }
 
+// c20Wrap says that the handler registered under a handler id is not a closure but a user type
+// built on the library's handler types. Its overriding Serve is the ordinary agent handler (reports
+// the entry, then obeys commands: mutate, delegate to what it embeds, return).
+//   embedmux / embedmuxptr     struct embedding mqtt.ServeMux / *mqtt.ServeMux (mux number Inner)
+//   embedasync / embedasyncptr struct embedding mqtt.ServeAsync / *mqtt.ServeAsync (long-lived value Inner)
+//   fieldmux                   struct holding *mqtt.ServeMux in a named field (control)
+type c20Wrap struct {
+	Kind  string
+	Inner int
+}
+
+type c20EmbedMux struct {
+	mqtt.ServeMux
+	serve func(*mqtt.Message)
+}
+
+func (w *c20EmbedMux) Serve(m *mqtt.Message) { w.serve(m) }
+
+type c20EmbedMuxPtr struct {
+	*mqtt.ServeMux
+	serve func(*mqtt.Message)
+}
+
+func (w c20EmbedMuxPtr) Serve(m *mqtt.Message) { w.serve(m) }
+
+type c20EmbedAsync struct {
+	mqtt.ServeAsync
+	serve func(*mqtt.Message)
+}
+
+func (w *c20EmbedAsync) Serve(m *mqtt.Message) { w.serve(m) }
+
+type c20EmbedAsyncPtr struct {
+	*mqtt.ServeAsync
+	serve func(*mqtt.Message)
+}
+
+func (w *c20EmbedAsyncPtr) Serve(m *mqtt.Message) { w.serve(m) }
+
+type c20FieldMux struct {
+	mux   *mqtt.ServeMux
+	serve func(*mqtt.Message)
+}
+
+func (w *c20FieldMux) Serve(m *mqtt.Message) { w.serve(m) }
+
 type c20Item struct {
 	kind  string // mut async mux
 	op    *c20Op
 	hid   int
 	mi    int
+	shared int      // async: index of a long-lived ServeAsync value + 1 (0 = a fresh value)
+	via    *mqtt.ServeAsync // async: the (embedded copy of the) long-lived value to call, if not x.shared[shared-1]
 	pa    *c20Agent // async: the pre-allocated pending agent
 	snap  c20Content
 	after []*c20Content // visible contents after the item (not for mux)
@@ -296,6 +349,10 @@ type c20Agent struct {
 	disp    int
 	hid     int
 	stepIdx int
+	shared  int // long-lived ServeAsync value + 1 it was dispatched through (0 = fresh value)
+	wrap    *c20Wrap         // the handler is a user type built on ServeMux / ServeAsync
+	via     *mqtt.ServeAsync // ... and this is the ServeAsync it embeds by value
+	acted   bool
 	// bookkeeping for "nontrivial"
 	ofDisp int
 }
@@ -310,7 +367,10 @@ type c20Frame struct {
 
 type c20Exec struct {
 	regs     [][]c20Reg
+	wraps    map[int]c20Wrap
 	muxes    []*mqtt.ServeMux
+	shared   []*mqtt.ServeAsync // long-lived ServeAsync values used for several dispatches
+	sharedQ  []chan *c20Agent
 	agents   []*c20Agent
 	frames   []*c20Frame
 	evCh     chan c20Ev
@@ -322,6 +382,7 @@ type c20Exec struct {
 	stuck    string
 	curFrame *c20Frame
 	aborted  bool
+	hold     chan struct{}
 	wg       sync.WaitGroup
 	// statistics
 	touched    map[int]bool // dispatch -> somebody holding the original or a copy mutated since
@@ -329,17 +390,85 @@ type c20Exec struct {
 	stat       map[string]int
 }
 
-func newC20Exec(regs [][]c20Reg) (*c20Exec, error) {
-	x := &c20Exec{regs: regs, evCh: make(chan c20Ev), touched: map[int]bool{}, stat: map[string]int{}}
+func newC20Exec(regs [][]c20Reg, wraps map[int]c20Wrap) (*c20Exec, error) {
+	x := &c20Exec{regs: regs, wraps: wraps, evCh: make(chan c20Ev), touched: map[int]bool{}, stat: map[string]int{}}
+	// long-lived ServeAsync values
+	var sharedH []mqtt.Handler
+	for j := 0; j < 2; j++ {
+		q := make(chan *c20Agent, 16)
+		x.sharedQ = append(x.sharedQ, q)
+		h := mqtt.HandlerFunc(func(m *mqtt.Message) {
+			// at most one invocation of a long-lived value is un-entered at any time (canShared)
+			select {
+			case pa := <-q:
+				x.asyncHandler(pa, m)
+			case <-time.After(c20Wait):
+			}
+		})
+		sharedH = append(sharedH, h)
+		x.shared = append(x.shared, &mqtt.ServeAsync{Handler: h})
+	}
+	// ServeMux values; one that a wrapper embeds by value lives inside that wrapper
+	x.muxes = make([]*mqtt.ServeMux, len(regs))
+	handlers := map[int]mqtt.Handler{}
 	for _, rs := range regs {
-		mux := &mqtt.ServeMux{}
 		for _, rg := range rs {
 			hid := rg.Hid
-			if err := mux.Handle(rg.Filter, mqtt.HandlerFunc(func(m *mqtt.Message) { x.muxHandler(hid, m) })); err != nil {
+			w, ok := wraps[hid]
+			if !ok {
+				handlers[hid] = mqtt.HandlerFunc(func(m *mqtt.Message) { x.muxHandler(hid, nil, nil, m) })
+				continue
+			}
+			wc := w
+			switch w.Kind {
+			case "embedmux":
+				e := &c20EmbedMux{}
+				e.serve = func(m *mqtt.Message) { x.muxHandler(hid, &wc, nil, m) }
+				if w.Inner >= len(regs) || x.muxes[w.Inner] != nil {
+					return nil, fmt.Errorf("harness: mux %d embedded twice", w.Inner)
+				}
+				x.muxes[w.Inner] = &e.ServeMux
+				handlers[hid] = e
+			case "embedasync":
+				e := &c20EmbedAsync{ServeAsync: mqtt.ServeAsync{Handler: sharedH[w.Inner]}}
+				e.serve = func(m *mqtt.Message) { x.muxHandler(hid, &wc, &e.ServeAsync, m) }
+				handlers[hid] = e
+			}
+		}
+	}
+	for i := range x.muxes {
+		if x.muxes[i] == nil {
+			x.muxes[i] = &mqtt.ServeMux{}
+		}
+	}
+	for _, rs := range regs {
+		for _, rg := range rs {
+			hid := rg.Hid
+			w, ok := wraps[hid]
+			if !ok {
+				continue
+			}
+			wc := w
+			switch w.Kind {
+			case "embedmuxptr":
+				handlers[hid] = c20EmbedMuxPtr{ServeMux: x.muxes[w.Inner], serve: func(m *mqtt.Message) { x.muxHandler(hid, &wc, nil, m) }}
+			case "embedasyncptr":
+				handlers[hid] = &c20EmbedAsyncPtr{ServeAsync: x.shared[w.Inner], serve: func(m *mqtt.Message) { x.muxHandler(hid, &wc, nil, m) }}
+			case "fieldmux":
+				handlers[hid] = &c20FieldMux{mux: x.muxes[w.Inner], serve: func(m *mqtt.Message) { x.muxHandler(hid, &wc, nil, m) }}
+			}
+		}
+	}
+	for i, rs := range regs {
+		for _, rg := range rs {
+			h := handlers[rg.Hid]
+			if h == nil {
+				return nil, fmt.Errorf("harness: no handler for h%d", rg.Hid)
+			}
+			if err := x.muxes[i].Handle(rg.Filter, h); err != nil {
 				return nil, fmt.Errorf("filter %q rejected: %v", rg.Filter, err)
 			}
 		}
-		x.muxes = append(x.muxes, mux)
 	}
 	return x, nil
 }
@@ -395,11 +524,11 @@ func (x *c20Exec) send(ev c20Ev) {
 }
 
 // a handler registered in a ServeMux: runs on the goroutine that called Serve
-func (x *c20Exec) muxHandler(hid int, m *mqtt.Message) {
+func (x *c20Exec) muxHandler(hid int, wrap *c20Wrap, via *mqtt.ServeAsync, m *mqtt.Message) {
 	if x.aborted {
 		return
 	}
-	ag := &c20Agent{ptr: m, cmd: make(chan c20Cmd), frame: x.curFrame}
+	ag := &c20Agent{ptr: m, cmd: make(chan c20Cmd), frame: x.curFrame, wrap: wrap, via: via}
 	x.send(c20Ev{kind: "entered", agent: ag, frame: x.curFrame, hid: hid, snap: c20Snap(m), extra: cap(m.Payload) - len(m.Payload)})
 	x.agentLoop(ag, true)
 }
@@ -417,7 +546,7 @@ func (x *c20Exec) asyncHandler(pa *c20Agent, m *mqtt.Message) {
 	}
 	pa.ptr = m
 	x.send(c20Ev{kind: "entered", agent: pa, hid: pa.hid, snap: c20Snap(m), extra: cap(m.Payload) - len(m.Payload)})
-	x.agentLoop(pa, false)
+	x.agentLoop(pa, true)
 }
 
 func (x *c20Exec) agentLoop(ag *c20Agent, inHandler bool) {
@@ -447,7 +576,13 @@ func (x *c20Exec) agentLoop(ag *c20Agent, inHandler bool) {
 				case "async":
 					it.snap = c20Snap(ag.ptr)
 					pa := it.pa
-					(&mqtt.ServeAsync{Handler: mqtt.HandlerFunc(func(m *mqtt.Message) { x.asyncHandler(pa, m) })}).Serve(ag.ptr)
+					if it.via != nil {
+						it.via.Serve(ag.ptr)
+					} else if it.shared > 0 {
+						x.shared[it.shared-1].Serve(ag.ptr)
+					} else {
+						(&mqtt.ServeAsync{Handler: mqtt.HandlerFunc(func(m *mqtt.Message) { x.asyncHandler(pa, m) })}).Serve(ag.ptr)
+					}
 					it.after = x.snapshotAll()
 				case "mux":
 					it.snap = c20Snap(ag.ptr)
@@ -465,6 +600,26 @@ func (x *c20Exec) agentLoop(ag *c20Agent, inHandler bool) {
 }
 
 func (x *c20Exec) canAct(a *c20Agent) bool { return a.started && a.busy == 0 }
+
+// delegateItem: the wrapper handler a calls the Serve of what it embeds (nil if it is no wrapper or may not now)
+func (x *c20Exec) delegateItem(a *c20Agent) *c20Item {
+	if a.wrap == nil || !a.live {
+		return nil
+	}
+	switch a.wrap.Kind {
+	case "embedmux", "embedmuxptr", "fieldmux":
+		if len(x.frames) >= 6 {
+			return nil
+		}
+		return &c20Item{kind: "mux", mi: a.wrap.Inner}
+	default:
+		j := a.wrap.Inner
+		if !x.canShared(j) {
+			return nil
+		}
+		return &c20Item{kind: "async", hid: 200 + j, shared: j + 1, via: a.via}
+	}
+}
 
 // doNew: somebody builds a message
 func (x *c20Exec) doNew(c c20Content, extra int, nilPayload bool) {
@@ -503,10 +658,18 @@ func (x *c20Exec) doBurst(a *c20Agent, items []*c20Item) {
 	for i, it := range items {
 		switch it.kind {
 		case "async":
-			pa := &c20Agent{id: len(x.agents), cmd: make(chan c20Cmd), gate: make(chan struct{}), hid: it.hid, ofDisp: -1}
+			if it.shared > 0 && !x.canShared(it.shared-1) {
+				x.fail("harness: two un-entered invocations of one long-lived ServeAsync value")
+				return
+			}
+			pa := &c20Agent{id: len(x.agents), cmd: make(chan c20Cmd), gate: make(chan struct{}), hid: it.hid, ofDisp: -1, shared: it.shared}
 			x.agents = append(x.agents, pa)
 			it.pa = pa
 			x.wg.Add(1)
+			if it.shared > 0 {
+				x.sharedQ[it.shared-1] <- pa
+				x.stat["async_through_long_lived_value"]++
+			}
 		case "mux":
 			if i != len(items)-1 {
 				x.fail("harness: mux dispatch must end a burst")
@@ -534,7 +697,7 @@ func (x *c20Exec) doBurst(a *c20Agent, items []*c20Item) {
 			x.pushDelta(it.after)
 			x.noteMutation(a)
 			x.stat["op_"+it.op.Kind]++
-			if !a.live && a.frame != nil {
+			if !a.live && (a.frame != nil || a.gate != nil) {
 				x.stat["mut_through_retained_pointer"]++
 			}
 		case "async":
@@ -584,6 +747,9 @@ func (x *c20Exec) muxEvent(fr *c20Frame, ev c20Ev) {
 		x.steps = append(x.steps, &c20Step{Kind: "muxnext", A: fr.id, Extra: ev.extra})
 		x.pushDelta(x.snapshotAll())
 		x.stat["mux_entries"]++
+		if ag.wrap != nil {
+			x.stat["entries_of_"+ag.wrap.Kind+"_wrapper"]++
+		}
 	case ev.kind == "served" && ev.frame == fr:
 		fr.done, fr.cur = true, nil
 		fr.agent.busy--
@@ -635,7 +801,7 @@ func (x *c20Exec) doRun(pa *c20Agent) {
 		x.fail("unexpected event %q while waiting for the asynchronous handler of dispatch %d", ev.kind, pa.disp)
 		return
 	}
-	pa.started = true
+	pa.started, pa.live = true, true
 	if x.touched[pa.disp] {
 		x.nontrivial++
 	}
@@ -644,6 +810,43 @@ func (x *c20Exec) doRun(pa *c20Agent) {
 	x.steps = append(x.steps, &c20Step{Kind: "run", A: pa.id})
 	x.pushDelta(x.snapshotAll())
 	x.stat["async_entries"]++
+}
+
+// a long-lived ServeAsync value may be used again once its previous invocation has been entered
+func (x *c20Exec) canShared(j int) bool {
+	for _, a := range x.agents {
+		if a.shared == j+1 && !a.started {
+			return false
+		}
+	}
+	return true
+}
+
+func (x *c20Exec) canReturn(a *c20Agent) bool {
+	return a.gate != nil && a.started && a.live && a.busy == 0
+}
+
+// doReturn: the handler behind a ServeAsync returns; the holder keeps the pointer (from now on a
+// goroutine of its own obeys the commands). Nothing is observable at the return itself.
+func (x *c20Exec) doReturn(pa *c20Agent) {
+	if x.aborted || !x.canReturn(pa) {
+		return
+	}
+	select {
+	case pa.cmd <- c20Cmd{kind: "return"}:
+	case <-time.After(c20Wait):
+		x.fail("handler agent %d does not take commands", pa.id)
+		return
+	}
+	pa.live = false
+	// let the goroutine that ServeAsync started run to its end (not a wait for anything the
+	// verdict depends on: whatever it does after the handler returned must not matter)
+	for i := 0; i < 64; i++ {
+		runtime.Gosched()
+	}
+	x.steps = append(x.steps, &c20Step{Kind: "return", A: pa.id})
+	x.pushDelta(x.snapshotAll())
+	x.stat["async_handler_returns_keeping_pointer"]++
 }
 
 // drain: let every open Serve finish and every goroutine run
@@ -679,8 +882,31 @@ func (x *c20Exec) drain(pick func(n int) int) {
 	}
 }
 
+// preroll: n asynchronous dispatches of a dummy message whose handlers stay parked until the case
+// is over. Harmless for the library as it is; if an implementation recycles message storage through
+// some pool, this takes whatever earlier cases left there out of circulation, so that recycling,
+// if any, happens among the holders of this case, where it is observed.
+func (x *c20Exec) preroll(n int) {
+	x.hold = make(chan struct{})
+	hold := x.hold
+	m := &mqtt.Message{Topic: "preroll", Payload: []byte{0}}
+	for i := 0; i < n; i++ {
+		x.wg.Add(1)
+		(&mqtt.ServeAsync{Handler: mqtt.HandlerFunc(func(*mqtt.Message) {
+			defer x.wg.Done()
+			select {
+			case <-hold:
+			case <-time.After(4 * c20Wait):
+			}
+		})}).Serve(m)
+	}
+}
+
 // finish: stop all participants
 func (x *c20Exec) finish() {
+	if x.hold != nil {
+		close(x.hold)
+	}
 	x.aborted = x.aborted || x.stuck != ""
 	abort := x.aborted
 	x.aborted = true // handlers entered from now on return at once
@@ -739,6 +965,10 @@ func (x *c20Exec) describe() map[string]interface{} {
 	for i, rs := range x.regs {
 		var l []string
 		for _, rg := range rs {
+			if w, ok := x.wraps[rg.Hid]; ok {
+				l = append(l, fmt.Sprintf("%q->h%d(%s %d)", rg.Filter, rg.Hid, w.Kind, w.Inner))
+				continue
+			}
 			l = append(l, fmt.Sprintf("%q->h%d", rg.Filter, rg.Hid))
 		}
 		regs = append(regs, fmt.Sprintf("mux%d[%s]", i, strings.Join(l, " ")))
